@@ -77,6 +77,21 @@ Section Final2.
     - intros H. decompose [and] H. constructor; assumption.
   Qed.
 
+  Lemma avu_post_meaning s n s' :
+    avu_post cap s n s' <->
+    (forall j, nwo (sg s') j = nwo (sg s) j) /\
+    gedges (sg s') = gedges (sg s) /\
+    length (gnodes (sg s')) = length (gnodes (sg s)) + n /\
+    (forall k j l, nwo (sg s) j <> None -> adj (sg s) k j l -> adj (sg s') k j l) /\
+    ncount s' = ncount s /\ ecount s' = ecount s /\ free_edge s' = free_edge s /\
+    (forall l, lseg (fnx (sg s)) (free_node s) l cap ->
+       lseg (fnx (sg s')) (free_node s') (rev (seq (length (gnodes (sg s))) n) ++ l) cap).
+  Proof.
+    split.
+    - intros []. tauto.
+    - intros H. decompose [and] H. constructor; assumption.
+  Qed.
+
   Lemma keeps_meaning s s' :
     keeps s s' <->
     (forall j w, nwo (sg s) j = Some w -> nwo (sg s') j = Some w) /\
@@ -121,7 +136,8 @@ Section Final2.
       (if ok then post = []
        else capcheck = true /\
             exists a b w post', post = (a, b, w) :: post' /\
-              (cap <= a \/ cap <= b \/ (free_edge s' = cap /\ length (gedges (sg s')) = cap))).
+              (((cap <= a \/ (nwo (sg s') a <> None /\ cap <= b)) /\ length (gnodes (sg s')) = cap) \/
+               (a < cap /\ b < cap /\ free_edge s' = cap /\ length (gedges (sg s')) = cap))).
   Proof. unfold ext_result. tauto. Qed.
 
   Lemma desc_meaning l :
@@ -386,7 +402,9 @@ Proof. vm_compute. repeat split; reflexivity. Qed.
 
 (* extend_with_edges naming the vacant slot 1 and the slot 6 beyond the vector (slots 5, 6 are
    appended vacant, 6 and 1 are occupied with the default weight 0; the free list becomes 5 -> 3);
-   and a list whose second edge names a node at the index limit *)
+   and a list whose second edge names a node at the index limit: the first edge stays added, node 0
+   exists, and the padding for node 9 fills the vector up to 8 slots before add_node(None) panics
+   (the slots 5, 6, 7 stay behind, vacant, at the head of the free list: 7 -> 6 -> 5 -> 3) *)
 Lemma demo_extend :
   (let '(ok, s) := s_extend_with_edges 8 true true demo2 [(1, 6, 500)] in (ok, sview 8 s)) =
     (true,
@@ -398,10 +416,56 @@ Lemma demo_extend :
   (let '(ok, s) := s_extend_with_edges 8 true true demo2 [(1, 2, 500); (0, 9, 501); (4, 4, 502)]
    in (ok, sview 8 s)) =
     (false,
-     ([(Some 10, (0, 2)); (Some 0, (1, 8)); (Some 12, (3, 1)); (None, (8, 8)); (Some 14, (2, 8))],
+     ([(Some 10, (0, 2)); (Some 0, (1, 8)); (Some 12, (3, 1)); (None, (8, 5)); (Some 14, (2, 8));
+       (None, (3, 6)); (None, (5, 7)); (None, (6, 8))],
       [(Some 100, (8, 8), (0, 2)); (Some 500, (8, 3), (1, 2)); (Some 102, (8, 8), (4, 0));
        (Some 103, (8, 0), (2, 2))],
-      (4, 4, 3, 8), true)).
+      (4, 4, 7, 8), true)).
+Proof. vm_compute. split; reflexivity. Qed.
+
+(* The index limit of a u8 graph (cap = 255, checked indices), as in the crate:
+     let mut g = StableGraph::<u32, u32, Directed, u8>::default();
+     g.add_node(1); g.add_node(2);
+     g.extend_with_edges([(255, 0, 7)])     // panics
+   ensure_node_exists(255) pushes the vacant slots 2 .. 254 and add_node(None) panics when the
+   vector has 255 entries; the 253 slots stay behind.  Observed below: (number of node slots,
+   node_count, edge_count, node_bound (= last live index + 1), free_node, check_free_lists,
+   index returned by a following add_node).  With [(4, 255, 7)] node 4 is created first (slots
+   2, 3, 4 pushed, 4 occupied), then the padding for 255 pushes 5 .. 254 and panics. *)
+Definition two255 : sgraph :=
+  st_of (rbind (s_try_add_node 255 true true (sg_empty 255) 1) (fun '(_, s) =>
+         rmap snd (s_try_add_node 255 true true s 2))).
+Definition limit_obs (s : sgraph) :=
+  (length (gnodes (sg s)), ncount s, ecount s, node_bound s, free_node s, check_free_lists 255 s,
+   rmap fst (s_try_add_node 255 true true s 9)).
+
+Lemma demo_extend_limit :
+  limit_obs two255 = (2, 2, 0, 2, 255, true, Ok (inr 2)) /\
+  (let '(ok, s) := s_extend_with_edges 255 true true two255 [(255, 0, 7)] in (ok, limit_obs s)) =
+    (false, (255, 2, 0, 2, 254, true, Ok (inr 254))) /\
+  (let '(ok, s) := s_extend_with_edges 255 true true two255 [(4, 255, 7)] in
+   (ok, limit_obs s, firstn 6 (map (fun n => (nwt n, nnext n)) (gnodes (sg s))))) =
+    (false, (255, 3, 0, 5, 254, true, Ok (inr 254)),
+     [(Some 1, (255, 255)); (Some 2, (255, 255)); (None, (255, 3)); (None, (2, 5));
+      (Some 0, (255, 255)); (None, (3, 6))]).
+Proof. vm_compute. repeat split; reflexivity. Qed.
+
+(* the same two sequences through the stream interpreter (header = directed, debug, cap 255, checked):
+   the result line and the counts line (node_count, edge_count, node_bound, edge_bound) of each step;
+   the extend panics (tag 2), and the next add_node returns 254 *)
+Lemma demo_extend_limit_stream :
+  map (firstn 2) (run_case [1; 1; 255; 1]%Z
+                    [(0, [1%Z]); (0, [2%Z]); (13, [255; 0; 7]%Z); (0, [9%Z])]) =
+    [[(TAG_IDX, [0%Z]); (TAG_COUNTS, [1; 0; 1; 0]%Z)];
+     [(TAG_IDX, [1%Z]); (TAG_COUNTS, [2; 0; 2; 0]%Z)];
+     [(TAG_PANIC, []); (TAG_COUNTS, [2; 0; 2; 0]%Z)];
+     [(TAG_IDX, [254%Z]); (TAG_COUNTS, [3; 0; 255; 0]%Z)]] /\
+  map (firstn 2) (run_case [1; 1; 255; 1]%Z
+                    [(0, [1%Z]); (0, [2%Z]); (13, [4; 255; 7]%Z); (0, [9%Z])]) =
+    [[(TAG_IDX, [0%Z]); (TAG_COUNTS, [1; 0; 1; 0]%Z)];
+     [(TAG_IDX, [1%Z]); (TAG_COUNTS, [2; 0; 2; 0]%Z)];
+     [(TAG_PANIC, []); (TAG_COUNTS, [3; 0; 5; 0]%Z)];
+     [(TAG_IDX, [254%Z]); (TAG_COUNTS, [4; 0; 255; 0]%Z)]].
 Proof. vm_compute. split; reflexivity. Qed.
 
 (* a history using every operation; the values returned along it *)
